@@ -6,12 +6,19 @@ from meta import COMMON_NOTE
 import brv
 from engine import Spec, Stream
 from monitors import tx as mon
+from monitors import node as mon_node
 
 
 def gen(seed, tier, out):
     n = 260 if tier == "quick" else 4000
     with open(out, "w") as f:
         subprocess.run([str(brv.BIN / "tx"), "gen", str(seed), str(n), tier], stdout=f, check=True)
+
+
+def gen_nodeinv(seed, tier, out):
+    n = 3 if tier == "quick" else 25
+    with open(out, "w") as f:
+        subprocess.run([str(brv.BIN / "node"), "gen", str(seed), str(n), tier, "c06"], stdout=f, check=True)
 
 
 def gen_stress(seed, tier, out):
@@ -52,13 +59,15 @@ def gen_race(seed, tier, out):
 SPEC = Spec(
     prop="C06",
     title="Each transaction seen reaches the processor exactly once; no duplicate requests",
-    go_bins=["tx"],
+    go_bins=["tx", "node"],
     lean_targets=["BRV.Props.C06", "drv_tx"],
     props_files=[brv.LEAN / "BRV/Props/C06.lean"],
     streams=[
         Stream("tx", "tx", "drv_tx", gen, monitor=mon.monitor, nontrivial=mon.nontrivial, timeout=800),
         Stream("stress", "tx", "drv_tx", gen_stress, monitor=mon.monitor, nontrivial=mon.nontrivial, compare=False,
                timeout=800, describe="8-goroutine concurrent calls; monitor only (interleaving is not replayable)"),
+        Stream("nodeinv", "node", "drv_node", gen_nodeinv, monitor=mon_node.monitor_c06_inv, nontrivial=mon_node.nontrivial_c06_inv, compare=False,
+               timeout=600, describe="real BitcoinNode + real TxManager: inventories of 49999..100001 fresh transactions in one message (handleInventory's getdata batching); monitor only"),
         Stream("race", "tx", "drv_tx", gen_race, monitor=mon.monitor, nontrivial=mon.nontrivial, compare=False,
                harness_args=("echo",), timeout=800, describe="stress scripts under the Go race detector (thorough tier)"),
     ],
